@@ -10,20 +10,6 @@ Definition fault_sim (a b : fault) : bool :=
   | _, _ => false
   end.
 
-(** the reports held by the error value returned by call [id]: what the final error is built from *)
-Fixpoint reports_under (tr : list call) (fuel : nat) (id : N) : list fault :=
-  match fuel with
-  | O => []
-  | S f =>
-    let self_of s := match s with Some x => reports_under tr f x | None => [] end in
-    match nth_opt tr (N.to_nat id) with
-    | Some (CError _ s k l) => FKind k l :: self_of s
-    | Some (CMerge _ s _ o _) => (reports_under tr f o ++ self_of s)%list
-    | Some (CMergeU _ s u l) => FUser u l :: self_of s
-    | _ => []
-    end
-  end.
-
 Definition count_sim {A} (eqb : A -> A -> bool) (x : A) (l : list A) : nat := List.length (filter (eqb x) l).
 Definition multiset_eq {A} (eqb : A -> A -> bool) (a b : list A) : bool :=
   Nat.eqb (List.length a) (List.length b)
